@@ -78,6 +78,13 @@ class Lock:
 def build_harness(workdir):
     """go build -tags verif of /verif/harness against /repo's current working tree."""
     src = os.path.join(VERIF, "harness")
+    if REPO != "/repo":
+        # development aid (mutation runs on scratch worktrees): private copy of the module
+        dst = os.path.join(workdir, "harness_src")
+        shutil.copytree(src, dst, ignore=shutil.ignore_patterns("verifharness"))
+        gm = open(os.path.join(dst, "go.mod")).read().replace("=> /repo", "=> " + REPO)
+        open(os.path.join(dst, "go.mod"), "w").write(gm)
+        src = dst
     # the harness module needs /repo's go.sum (no network: sums must already be known)
     try:
         shutil.copyfile(os.path.join(REPO, "go.sum"), os.path.join(src, "go.sum"))
